@@ -47,7 +47,7 @@ def run(ctx):
     from vlib import absint as A
 
     def hook(fn, args, node, interp):
-        if fn.endswith("Evaluate::evaluate") or fn == c03.EVAL_CAND:
+        if fn.endswith("Evaluate::evaluate") or fn == c03.eval_cand(fx):
             return ("term", "EVAL", (args[0],))
         return None
     paths = A.Interp(fx, hook=hook, crates=(AGENT,)).explore(c03.EVAL_POL)
@@ -59,6 +59,7 @@ def run(ctx):
     r2_dependency(ctx, chk, fx)
     r3_evaluator_survives(ctx, chk, fx)
     r4_compare_tolerates_failure(chk, fx)
+    r5_statement_readers_consume(chk, fx)
 
 
 def r3_evaluator_survives(ctx, chk, fx):
@@ -154,7 +155,7 @@ class _Rename:
 def contained(fx):
     """Is the per-candidate evaluation wrapped in catch_unwind?"""
     for n, b in fx.mir.items():
-        if n == c03.EVAL_CAND or n.startswith(c03.EVAL_CAND + "::{closure"):
+        if n == c03.eval_cand(fx) or n.startswith(c03.eval_cand(fx) + "::{closure"):
             if b.calls_to("std::panic::catch_unwind"):
                 return True
     return False
@@ -216,3 +217,36 @@ def r2_dependency(ctx, chk, fx):
     for a in ep["analysed"]:
         if "rpsl::expr::eval::Evaluate" in a and not any(s["fn"] == a for s in ep["sites"]):
             chk.instance("C15/R2", "no explicit panic in %s" % T.short(T.strip_generics(a), 3), a, None, holds=True)
+
+
+def r5_statement_readers_consume(chk, fx):
+    """A policy-statement the agent decides to skip (not annotated, inactive, unevaluable by construction ..) must still be *read past*:
+    the reader of one statement returns Ok only with its element consumed — by read_to_end(<its end tag>) or by leaving its element loop
+    at its own End event.  An early `return Ok(None)` with the children unread leaves them to the enclosing loop, which rejects the
+    whole reply: every other policy of the run is lost with the skipped one."""
+    from vlib import absint as A
+    targets = [n for n in sorted(fx.thir) if n.endswith("::read_xml") and "::policies::fetch::" in n and "::tests::" not in n and "Maybe<" in n]
+    chk.floor("C15/R5 statement readers", len(targets), 2)
+    for name in targets:
+        chk.analysed(name)
+        n_ok = 0
+        try:
+            start = "«param:%s»" % (fx.fn_item(name).get("params") or [None, "start"])[1]
+        except (F.AnchorLost, IndexError):
+            start = "«param:start»"
+        for p in A.Interp(fx, crates=(AGENT,), max_paths=8000).explore(name):
+            if p.end in ("iter-end", "abort") or not (A.is_res(p.ret) and p.ret[2] == "Ok"):
+                continue
+            n_ok += 1
+            skipped = any(start in A.vstr(c[2][1]) for c in p.calls("read_to_end") if len(c[2]) > 1)
+            at_end = any(v is True and "→End.0" in k and ("to_end(%s)" % start) in k for k, v in p.assume.items())
+            ok = skipped or at_end
+            chk.instance("C15/R5", "%s returns Ok only with its element consumed (%s)" % (AC_short(name), "read_to_end" if skipped else "left at its End event" if at_end else "children unread"),
+                         name, loc_of(fx.thir[name].get("sp")), holds=ok, key="C15/R5 %s Ok-without-consuming-the-element" % AC_short(name),
+                         detail=None if ok else "the statement's children are left for the enclosing loop: UnexpectedXmlEvent for the whole reply")
+        chk.floor("C15/R5 Ok paths of %s" % AC_short(name), n_ok, 1)
+
+
+def AC_short(name):
+    from . import readers as R
+    return R.short_fn(name)
